@@ -71,6 +71,13 @@ func (r *roaBucket) GetEntries() []*ROA {
 type ROATable struct {
 	trees  map[bgp.Family]*critbitgo.Net
 	logger *slog.Logger
+	// AS of the local speaker: the origin AS of the routes it originates,
+	// whose source carries no local AS
+	localAS uint32
+}
+
+func (rt *ROATable) SetLocalAS(as uint32) {
+	rt.localAS = as
 }
 
 func NewROATable(logger *slog.Logger) *ROATable {
@@ -198,6 +205,9 @@ func (rt *ROATable) Validate(path *Path) *Validation {
 	}
 
 	ownAs := path.OriginInfo().source.LocalAS
+	if ownAs == 0 {
+		ownAs = rt.localAS
+	}
 	asPath := path.GetAsPath()
 	var as uint32
 
